@@ -10,7 +10,7 @@
    monotonicity) but the exact characterisation is only exercised by the correspondence + oracle, and is known to be
    false for duplicate objects (C21_invalidated_copy_reported_refuted). *)
 From Coq Require Import List Bool Arith.
-From SF Require Import Base.Str Base.Corr DataReg.Model DataReg.Proofs DataReg.Rereg DataReg.Inval DataReg.Refine.
+From SF Require Import Base.Str Base.Corr DataReg.Model DataReg.Proofs DataReg.Rereg DataReg.Inval DataReg.Refine DataReg.Mounts.
 Import ListNotations.
 Local Open Scope string_scope. Local Open Scope list_scope.
 
@@ -129,6 +129,29 @@ Proof.
   destruct h1 as [|o1 [|o2 [|o3 [|o4 [|o5 h1]]]]]; simpl in E; inversion E; subst; vm_compute; discriminate.
 Qed.
 
+(* wrapped locations with mount points (the property's quantifier): the path that register_path derives on the
+   wrapped location comes from a mount point of the wrapping location that contains the path, and from the most
+   specific one - no mount point containing the path is longer - whatever the order of the mounts dictionary
+   (the model sorts the mount-point strings as the code does: sorted(mounts, reverse=True)).  Components of mount
+   points are assumed non-empty (normalised paths). *)
+Theorem C21_inner_path_most_specific : forall tab li l w p q,
+  nth_error tab li = Some l -> good_mounts (lmounts l) ->
+  inner_path tab li p = Some (w, q) ->
+  lwraps l = Some w /\ llocal l = false /\
+  exists m t rest, In (m, t) (lmounts l) /\ strip_prefix m p = Some rest /\ q = t ++ rest /\
+                   forall m2 t2, In (m2, t2) (lmounts l) -> beneath m2 p = true -> length m2 <= length m.
+Proof. exact inner_path_most_specific. Qed.
+Example C21_inner_path_example :
+  let w := mkloc ("dw", "w") false (Some 0) [(["mnt"], ["host"]); (["mnt"; "in"], ["host"; "data"])] in
+  let tab := [mkloc ("d1", "n1") false None []; w] in
+  inner_path tab 1 ["mnt"; "in"; "f"] = Some (0, ["host"; "data"; "f"]) /\
+  inner_path tab 1 ["mnt"; "inner"; "f"] = Some (0, ["host"; "inner"; "f"]) /\
+  inner_path tab 1 ["other"] = None /\ good_mounts (lmounts w).
+Proof.
+  repeat split; try (vm_compute; reflexivity).
+  intros m t [H|[H|[]]]; inversion H; subst; repeat constructor; discriminate.
+Qed.
+
 (* The text's "available exactly when ... not invalidated since" is still FALSE of the faithful model (known
    finding reports-invalidated/dupreg): register /a/a twice (register_path hands out a second object for the same
    copy, which the tree does not hold under /a/a), register /z, relate(/z, second object), invalidate /a/a —
@@ -181,3 +204,4 @@ Print Assumptions C21_isolation.
 Print Assumptions C21_invalidate_monotone.
 Print Assumptions C21_refines_partial.
 Print Assumptions C21_spec_meaning.
+Print Assumptions C21_inner_path_most_specific.
